@@ -9,7 +9,7 @@ from concurrent.futures import ThreadPoolExecutor
 
 import vlib
 
-NOBODY = ["setpriv", "--reuid=65534", "--regid=65534", "--clear-groups"]
+NOBODY = [shutil.which("setpriv") or "setpriv", "--reuid=65534", "--regid=65534", "--clear-groups"]
 POOL = 8
 
 
